@@ -251,6 +251,22 @@ PROPS = {
         note="node destruction observed through json_object_set_userdata delete callbacks (one token per node, re-issued by set_userdata); ASan makes a dangling reference fault",
         assumptions=COMMON_ASSUMPTIONS,
     ),
+    "C08": dict(
+        level="fault_enumeration",
+        runs=[dict(harness="c08", variant="san", shards=16)],
+        deadline=dict(quick=300, thorough=1800),
+        rule="72 deterministic workloads (parse of 8 documents forcing every growth path, each constructor, member add with/without table growth and replace, array add/insert/put with growth, "
+             "set_string growing, deep copy, serialization of a 41-element tree under 3 flag sets, pointer get/getf/set/setf, one patch per operation kind in place and with copy_from, "
+             "tokener creation, from_fd/to_fd, double-format option, equal/visit/get_string); every allocation-like call (malloc, calloc, realloc, strdup, vasprintf, duplocale, newlocale) "
+             "of the operation is failed in turn (bound 1), then every pair k1<k2 (bound 2); non-trivial = distinct (workload, failed index)",
+        bound=dict(quick="all single faults; all pairs for workloads with <= 45 allocations", thorough="all single faults; all pairs for every workload"),
+        states_stat="cases", transitions_stat="calls",
+        technique="exhaustive enumeration of allocation-failure choice points (all singles, all pairs) over a workload corpus on the real code (ASan build), normal-or-clean-failure oracle with allocation accounting",
+        claim="for every workload and every failed allocation index (and pair) the operation returned its fault-free result or failed through its documented channel, objects the caller "
+              "owns dumped identically before and after and stayed releasable, and nothing remained allocated",
+        note="after a failed in-place patch the document is required to be valid and releasable, not unchanged (the API makes no rollback promise); realloc always moves in the seam so stale pointers fault",
+        assumptions=COMMON_ASSUMPTIONS,
+    ),
 }
 
 NOT_APPLICABLE = {}
